@@ -293,4 +293,50 @@ theorem src_spline_cv_selects_max (mindists dampings : List Rat) (cv : Rat → R
     have := hmax k (by simpa using hk)
     simpa [listMean] using this
 
+/-! ## `score_estimator` and `BaseGridder.score` as regenerated from the source (Gen/ModelSel.lean) -/
+
+/-- What `check_fit_input(…, unpack=False)` hands on as weights: one entry per data component, `None` throughout when no weights were given. -/
+def weightsTuple (rows : Rows) : List (Option (List Rat)) := (List.range rows.data.length).map fun i => rows.weights.bind (·[i]?)
+
+theorem zipIdx_mapM_eq {β : Type} (l : List (List Rat)) (F : List Rat → Nat → Option β) :
+    (l.zipIdx).mapM (fun (p : List Rat × Nat) => F p.1 p.2) = (List.range l.length).mapM fun i => F (l.getD i []) i := by
+  have : l.zipIdx = (List.range l.length).map fun i => (l.getD i [], i) := by
+    apply List.ext_getElem
+    · simp
+    · intro i h1 h2
+      simp only [List.length_zipIdx] at h1
+      simp [List.getElem_zipIdx, List.getD_eq_getElem?_getD, List.getElem?_eq_getElem h1]
+  rw [this, List.mapM_map]
+  rfl
+
+theorem mapM_congr_opt {α β : Type} (l : List α) (f g : α → Option β) (h : ∀ x ∈ l, f x = g x) : l.mapM f = l.mapM g := by
+  induction l with
+  | nil => rfl
+  | cons x xs ih =>
+    simp only [List.mapM_cons]
+    rw [h x (List.mem_cons_self), ih (fun y hy => h y (List.mem_cons_of_mem _ hy))]
+
+/-- **Bridge.**  `score_estimator` as regenerated from the source — one score per predicted component, `scorer(DummyEstimator(pred), X, data[i],
+    sample_weight=weights[i])`, which array is the prediction and which the truth read from the syntax tree, `np.mean` of the scores — is the
+    model's `scoreEstimator` for every metric, whenever the estimator predicts as many components as there are data components. -/
+theorem gen_score_estimator_eq_model (s : Scoring) (pred : List (List Rat)) (rows : Rows) (hlen : pred.length = rows.data.length) :
+    Gen.scoreEstimator (fun p y w => metric s y p w) pred rows.data (weightsTuple rows) = scoreEstimator s pred rows := by
+  unfold Gen.scoreEstimator scoreEstimator
+  have h := zipIdx_mapM_eq pred (fun p i => metric s (rows.data.getD i []) p ((weightsTuple rows).getD i none))
+  have h' : (pred.zipIdx.mapM fun (x : List Rat × Nat) => metric s (rows.data.getD x.2 []) x.1 ((weightsTuple rows).getD x.2 none))
+      = (List.range rows.data.length).mapM fun i => metric s (rows.data.getD i []) (pred.getD i []) (rows.weights.bind (·[i]?)) := by
+    rw [h, hlen]
+    apply mapM_congr_opt
+    intro i hi
+    have : i < rows.data.length := List.mem_range.mp hi
+    simp [weightsTuple, List.getD_eq_getElem?_getD, List.getElem?_map, List.getElem?_range this]
+  simp only [bind, Option.bind] at h' ⊢
+  rw [h']
+  cases (List.range rows.data.length).mapM fun i => metric s (rows.data.getD i []) (pred.getD i []) (rows.weights.bind (·[i]?)) with
+  | none => rfl
+  | some per => simp [Gen.listMeanOpt, listSum]
+
+/-- `BaseGridder.score` asks for R² (read from the source). -/
+theorem gen_gridder_score_metric : Gen.gridderScoreMetric = Scoring.r2 := rfl
+
 end Verde.C12
